@@ -25,11 +25,20 @@
   * `C14_recursive` (kernel-evaluated) — self-referential definitions are accepted
     and validation of documents nested 0‥6 deep terminates with the fuel
     `documents depth + 3`, reporting the error planted at depth 4.
+  * `C14_self_reference_accepted` (kernel-evaluated) — rules sets that refer to themselves
+    from within a `schema` mapping (directly, through a list of mappings, through an *of
+    definition) are accepted, and a malformed one of that shape is still rejected (F36).
+  * `C14_fuel_irrelevant` — the fuel with which the model ties the recursion through child
+    validators (and so through self-referential definitions) is only a termination device:
+    an answer other than "out of fuel" obtained with some fuel is the answer for every larger
+    fuel, for every environment (registries of any shape), schema and document — so
+    "terminates" can be read as "some fuel suffices", and the ports may pick any fuel that does.
   Termination for *every* finite document under arbitrary self-referential
   registries is not proved (no measure argument yet); it is decided by the port and
   oracle on recursive definitions applied to documents of depth <= 6.
 -/
 import Cerberus.Proofs.Validate
+import Cerberus.Proofs.Fuel
 import Cerberus.Model.Schema
 import Cerberus.Extracted
 namespace Cerberus
@@ -144,6 +153,74 @@ set_option maxRecDepth 100000 in
     exactly the planted error chain (one group error per level down to depth 4) -/
 theorem C14_recursive :
     (List.range 7).map C14_result = [some 0, some 0, some 0, some 0, some 9, some 9, some 9] := by
+  decide +kernel
+
+/-! ### the fuel is only a termination device -/
+
+/-- **an answer does not depend on the fuel**: whatever the registries hold (self-referential or not), if
+    validating with `n` units of fuel gives an answer — a list of errors or a Python exception — then every
+    larger amount of fuel gives the same answer (`Proofs/Fuel.lean`: every function of the validation
+    model is monotone in its recursive callback for the order in which "out of fuel" is least) -/
+theorem C14_fuel_irrelevant (env : Env) (t : Tables) (n m : Nat) (hnm : n ≤ m) (ctx : Ctx) (schema doc : Val)
+    (upd : Bool) (h : validate0 env t n ctx schema doc upd ≠ .error .fuel) :
+    validate0 env t m ctx schema doc upd = validate0 env t n ctx schema doc upd :=
+  validate0_stable env t n m hnm ctx schema doc upd h
+
+/-- the same for normalization followed by validation (`validate(doc)` with its default `normalize=True`) -/
+theorem C14_fuel_irrelevant_processing (env : Env) (t : Tables) (n m : Nat) (hnm : n ≤ m) (ctx : Ctx) (schema : Val)
+    (doc : List (Key × Val)) (upd : Bool) (h : validateN env t n ctx schema doc upd ≠ .error .fuel) :
+    validateN env t m ctx schema doc upd = validateN env t n ctx schema doc upd :=
+  validateN_stable env t n m hnm ctx schema doc upd h
+
+/-- does the recursive `tree` definition answer on the chain of depth `depth` with `n` units of fuel? -/
+def C14_answers (n depth : Nat) : Bool :=
+  match validate0 C14_env Extracted.tables n { cfg := {} } (.str "tree") (C14_doc depth 0) false with
+  | .error .fuel => false
+  | _ => true
+
+set_option maxRecDepth 100000 in
+/-- the hypothesis of `C14_fuel_irrelevant` is met by the recursive definition (9 units suffice for depth 3), and
+    it is not vacuous: with too little fuel the model does run out -/
+theorem C14_fuel_instance : C14_answers 9 3 = true ∧ C14_answers 2 3 = false := by
+  decide +kernel
+
+/-! ### rules sets that refer to themselves from within a `schema` mapping (kernel-evaluated; finding F36) -/
+
+def C14_cls : Cls :=
+  { rules := Extracted.metaSchemaFields, validationRules := Extracted.validationRules, types := Extracted.typeNames }
+
+/-- `selfmap` refers to itself as a field definition of its own sub-schema, `selflist` through a list of
+    mappings, `selfof` through an *of definition; `broken` does the same but also uses an unknown rule -/
+def C14_regs (n : String) : Option Val :=
+  if n == "selfmap" then
+    some (.dict [(.s "type", .str "dict"),
+                 (.s "schema", .dict [(.s "x", .str "selfmap"), (.s "n", .dict [(.s "type", .str "integer")])])])
+  else if n == "selflist" then
+    some (.dict [(.s "type", .str "list"),
+                 (.s "schema", .dict [(.s "type", .str "dict"), (.s "schema", .dict [(.s "y", .str "selflist")])])])
+  else if n == "selfof" then
+    some (.dict [(.s "anyof", .seq false [.dict [(.s "type", .str "integer")],
+                   .dict [(.s "type", .str "dict"), (.s "schema", .dict [(.s "y", .str "selfof")])]])])
+  else if n == "broken" then
+    some (.dict [(.s "type", .str "dict"),
+                 (.s "schema", .dict [(.s "x", .str "broken"), (.s "z", .dict [(.s "no_such_rule", .int 1)])])])
+  else none
+
+def C14_accepts (fields : List (Key × Val)) : Bool :=
+  match S.acceptSchema C14_cls Extracted.metaTables C14_regs (fun _ => none) (.dict fields) with
+  | .accepted _ => true
+  | _ => false
+
+set_option maxRecDepth 100000 in
+/-- **self-referential rules sets are accepted** (the check of a definition that is already being checked
+    further up is not started again), at the top level and below a sub-schema, and a malformed
+    self-referential definition is still rejected -/
+theorem C14_self_reference_accepted :
+    C14_accepts [(.s "a", .str "selfmap")] = true ∧
+    C14_accepts [(.s "a", .str "selflist"), (.s "b", .str "selfof")] = true ∧
+    C14_accepts [(.s "a", .dict [(.s "type", .str "dict"), (.s "schema", .dict [(.s "b", .str "selfmap")])])] = true ∧
+    C14_accepts [(.s "a", .str "broken")] = false ∧
+    C14_accepts [(.s "a", .dict [(.s "type", .str "dict"), (.s "schema", .dict [(.s "b", .str "broken")])])] = false := by
   decide +kernel
 
 end Cerberus
